@@ -46,6 +46,8 @@ func main() {
 		err = cmdIDSeq(*out)
 	case "probe":
 		err = cmdProbe()
+	case "oneway": // oneway.go: one-way calls against reading / closing / refusing peers, counters at quiescence (C09)
+		err = onewayCmd(os.Args[2:])
 	case "adpclose": // adpclose.go: adapters closed while calls are outstanding on them (C08)
 		err = cmdAdpClose(os.Args[2:])
 	default:
